@@ -278,3 +278,174 @@ Lemma rot_unit_exact q : n2 q == 1 -> rot_unit q =m= rot q.
 Proof.
   intros H. unfold rot, rot_unit. cbv zeta. rewrite H. dq; unf. conj; field.
 Qed.
+
+#[export] Instance Qlt_bool_proper : Proper (Qeq ==> Qeq ==> eq) Qlt_bool.
+Proof. intros a b H c d G. unfold Qlt_bool. rewrite H, G. reflexivity. Qed.
+#[export] Instance unit_band_proper : Proper (qeq ==> eq) unit_band.
+Proof. intros a b H. unfold unit_band. rewrite H. reflexivity. Qed.
+#[export] Instance rot_impl_proper : Proper (qeq ==> meq) rot_impl.
+Proof. intros a b H. unfold rot_impl. rewrite (unit_band_proper a b H). destruct (unit_band b); rewrite H; reflexivity. Qed.
+
+Lemma Qlt_bool_iff a b : Qlt_bool a b = true <-> a < b.
+Proof.
+  unfold Qlt_bool. rewrite negb_true_iff. split.
+  - intros H. apply Qnot_le_lt. intros L. apply Qle_bool_iff in L. congruence.
+  - intros H. destruct (Qle_bool b a) eqn:E; [|reflexivity]. apply Qle_bool_iff in E. exfalso. eapply Qlt_not_le; eassumption.
+Qed.
+
+Lemma unit_band_true q : unit_band q = true <-> Qabs (n2 q - 1) < band.
+Proof. apply Qlt_bool_iff. Qed.
+
+(* exactly-unit quaternions fall in the band, and there the two formulas agree *)
+Lemma unit_band_unit q : n2 q == 1 -> unit_band q = true.
+Proof. intros H. apply unit_band_true. rewrite H. reflexivity. Qed.
+
+Lemma rot_impl_exact q : n2 q == 1 \/ unit_band q = false -> rot_impl q =m= rot q.
+Proof.
+  unfold rot_impl. intros [H|H].
+  - rewrite (unit_band_unit q H). apply rot_unit_exact; assumption.
+  - rewrite H. reflexivity.
+Qed.
+Lemma rot_impl_one : rot_impl qone =m= mid.
+Proof. rewrite rot_impl_exact by (left; apply n2_one). apply rot_one. Qed.
+
+(* In the band but not exactly unit, the code's matrix is not exactly a rotation; it differs from the
+   rotation of q by at most 2*|n2 q - 1| < 2e-14 in every entry. *)
+Definition mdist_le (e : Q) (a b : mat) : Prop :=
+  Qabs (m00 a - m00 b) <= e /\ Qabs (m01 a - m01 b) <= e /\ Qabs (m02 a - m02 b) <= e /\
+  Qabs (m10 a - m10 b) <= e /\ Qabs (m11 a - m11 b) <= e /\ Qabs (m12 a - m12 b) <= e /\
+  Qabs (m20 a - m20 b) <= e /\ Qabs (m21 a - m21 b) <= e /\ Qabs (m22 a - m22 b) <= e.
+
+Lemma band_entry (s n : Q) : 0 < n -> - (2 * n) <= s -> s <= 2 * n -> Qabs (s / n - s) <= 2 * Qabs (n - 1).
+Proof.
+  intros Hn Hl Hu.
+  assert (Hd : 0 < / n) by (apply Qinv_lt_0_compat; assumption).
+  set (d := / n) in *. assert (Hnd : n * d == 1) by (unfold d; field; intros Z; rewrite Z in Hn; discriminate).
+  assert (E : s / n - s == (s * d) * (1 - n)) by (unfold Qdiv; fold d; transitivity (s * d - s * (n * d)); [rewrite Hnd; ring | ring]).
+  rewrite E, Qabs_Qmult.
+  assert (Hr : Qabs (s * d) <= 2).
+  { apply Qabs_Qle_condition. split; nra. }
+  assert (Qabs (1 - n) == Qabs (n - 1)) as ->.
+  { rewrite <- Qabs_opp. apply Qabs_wd. ring. }
+  pose proof (Qabs_nonneg (n - 1)). pose proof (Qabs_nonneg (s * d)). nra.
+Qed.
+
+Lemma rot_impl_error q : ~ n2 q == 0 -> mdist_le (2 * Qabs (n2 q - 1)) (rot_impl q) (rot q).
+Proof.
+  intros NZ. unfold rot_impl. destruct (unit_band q).
+  2:{ pose proof (Qabs_nonneg (n2 q - 1)) as P. set (e := Qabs (n2 q - 1)) in *.
+      assert (Z : forall x, Qabs (x - x) <= 2 * e).
+      { intros x. assert (x - x == 0) as -> by ring. change (Qabs 0) with 0. nra. }
+      unfold mdist_le. conj; apply Z. }
+  assert (Hn : 0 < n2 q).
+  { pose proof (n2_nonneg q). apply Qle_lteq in H. destruct H as [H|H]; [assumption|]. exfalso. apply NZ. symmetry; assumption. }
+  unfold mdist_le, rot, rot_unit. cbv zeta. cbn [m00 m01 m02 m10 m11 m12 m20 m21 m22].
+  set (n := n2 q) in *.
+  assert (D : forall s, - (2 * n) <= s -> s <= 2 * n -> Qabs ((1 - s) - (1 - s / n)) <= 2 * Qabs (n - 1)).
+  { intros s Hl Hu. assert ((1 - s) - (1 - s / n) == s / n - s) as -> by ring. apply band_entry; assumption. }
+  assert (O : forall s, - (2 * n) <= s -> s <= 2 * n -> Qabs (s - s / n) <= 2 * Qabs (n - 1)).
+  { intros s Hl Hu. assert (s - s / n == - (s / n - s)) as -> by ring. rewrite Qabs_opp. apply band_entry; assumption. }
+  unfold n, n2 in *. destruct q as [w x y z]; cbn [qw qx qy qz] in *.
+  assert (SQ : forall u : Q, 0 <= u * u) by (intros; nra).
+  pose proof (SQ (x - y)); pose proof (SQ (x + y)); pose proof (SQ (z - w)); pose proof (SQ (z + w));
+  pose proof (SQ (x - z)); pose proof (SQ (x + z)); pose proof (SQ (y - w)); pose proof (SQ (y + w));
+  pose proof (SQ (y - z)); pose proof (SQ (y + z)); pose proof (SQ (x - w)); pose proof (SQ (x + w));
+  pose proof (SQ x); pose proof (SQ y); pose proof (SQ z); pose proof (SQ w).
+  conj; first [apply D | apply O]; lra.
+Qed.
+
+(* ------------------------------------------------------------------ reduced-fraction versions *)
+Lemma radd_eq a b : radd a b == a + b. Proof. apply Qred_correct. Qed.
+Lemma rsub_eq a b : rsub a b == a - b. Proof. apply Qred_correct. Qed.
+Lemma rmul_eq a b : rmul a b == a * b. Proof. apply Qred_correct. Qed.
+Lemma rdiv_eq a b : rdiv a b == a / b. Proof. apply Qred_correct. Qed.
+#[export] Instance radd_proper : Proper (Qeq ==> Qeq ==> Qeq) radd.
+Proof. intros a b H c d G. rewrite !radd_eq, H, G. reflexivity. Qed.
+#[export] Instance rsub_proper : Proper (Qeq ==> Qeq ==> Qeq) rsub.
+Proof. intros a b H c d G. rewrite !rsub_eq, H, G. reflexivity. Qed.
+#[export] Instance rmul_proper : Proper (Qeq ==> Qeq ==> Qeq) rmul.
+Proof. intros a b H c d G. rewrite !rmul_eq, H, G. reflexivity. Qed.
+#[export] Instance rdiv_proper : Proper (Qeq ==> Qeq ==> Qeq) rdiv.
+Proof. intros a b H c d G. rewrite !rdiv_eq, H, G. reflexivity. Qed.
+
+Ltac unr := rewrite ?radd_eq, ?rsub_eq, ?rmul_eq, ?rdiv_eq.
+Ltac unr_all := repeat (progress unr).
+
+Lemma qred_eq q : qred q =q= q.
+Proof. unfold qred, qeq; cbn. conj; apply Qred_correct. Qed.
+Lemma vred_eq v : vred v =v= v.
+Proof. unfold vred, veq; cbn. conj; apply Qred_correct. Qed.
+
+Lemma n2_r_eq q : n2_r q == n2 q.
+Proof. unfold n2_r, n2. unr_all. ring. Qed.
+
+Lemma qmul_r_eq a b : qmul_r a b =q= qmul a b.
+Proof. unfold qmul_r, qmul, qeq. cbn [qw qx qy qz]. conj; unr_all; ring. Qed.
+
+Lemma qinv_r_eq q : qinv_r q =q= qinv q.
+Proof. unfold qinv_r, qinv, qeq. cbv zeta. cbn [qw qx qy qz]. conj; unr_all; rewrite n2_r_eq; reflexivity. Qed.
+
+Lemma rot_unit_r_eq q : rot_unit_r q =m= rot_unit q.
+Proof.
+  unfold rot_unit_r, rot_unit, meq. cbv zeta. cbn [m00 m01 m02 m10 m11 m12 m20 m21 m22].
+  conj; unr_all; ring.
+Qed.
+
+Lemma rot_r_eq q : rot_r q =m= rot q.
+Proof.
+  unfold rot_r, rot, meq. cbv zeta. cbn [m00 m01 m02 m10 m11 m12 m20 m21 m22].
+  conj; unr_all; rewrite n2_r_eq; unfold Qdiv; ring.
+Qed.
+
+Lemma unit_band_r_eq q : unit_band_r q = unit_band q.
+Proof. unfold unit_band_r, unit_band. rewrite n2_r_eq. reflexivity. Qed.
+
+Lemma rot_impl_r_eq q : rot_impl_r q =m= rot_impl q.
+Proof.
+  unfold rot_impl_r, rot_impl. rewrite unit_band_r_eq. destruct (unit_band q); [apply rot_unit_r_eq | apply rot_r_eq].
+Qed.
+
+Lemma vadd_r_eq a b : vadd_r a b =v= vadd a b.
+Proof. unfold vadd_r, vadd, veq. cbn [vx vy vz]. conj; unr_all; reflexivity. Qed.
+Lemma mvmul_r_eq a v : mvmul_r a v =v= mvmul a v.
+Proof. unfold mvmul_r, mvmul, veq. cbn [vx vy vz]. conj; unr_all; reflexivity. Qed.
+
+#[export] Instance qmul_r_proper : Proper (qeq ==> qeq ==> qeq) qmul_r.
+Proof. intros a b H c d G. rewrite !qmul_r_eq, H, G. reflexivity. Qed.
+#[export] Instance qinv_r_proper : Proper (qeq ==> qeq) qinv_r.
+Proof. intros a b H. rewrite !qinv_r_eq, H. reflexivity. Qed.
+#[export] Instance rot_impl_r_proper : Proper (qeq ==> meq) rot_impl_r.
+Proof. intros a b H. rewrite !rot_impl_r_eq, H. reflexivity. Qed.
+#[export] Instance vadd_r_proper : Proper (veq ==> veq ==> veq) vadd_r.
+Proof. intros a b H c d G. rewrite !vadd_r_eq, H, G. reflexivity. Qed.
+#[export] Instance mvmul_r_proper : Proper (meq ==> veq ==> veq) mvmul_r.
+Proof. intros a b H c d G. rewrite !mvmul_r_eq, H, G. reflexivity. Qed.
+#[export] Instance qred_proper : Proper (qeq ==> qeq) qred.
+Proof. intros a b H. rewrite !qred_eq. assumption. Qed.
+#[export] Instance vred_proper : Proper (veq ==> veq) vred.
+Proof. intros a b H. rewrite !vred_eq. assumption. Qed.
+
+(* ------------------------------------------------------------------ tolerance comparisons respect == *)
+#[export] Instance close_abs_proper : Proper (Qeq ==> Qeq ==> Qeq ==> Qeq ==> eq) close_abs.
+Proof. intros t t' Ht s s' Hs a a' Ha b b' Hb. unfold close_abs. rewrite Ht, Hs, Ha, Hb. reflexivity. Qed.
+#[export] Instance vmaxabs_proper : Proper (veq ==> Qeq) vmaxabs.
+Proof. intros a b (H1 & H2 & H3). unfold vmaxabs. rewrite H1, H2, H3. reflexivity. Qed.
+#[export] Instance qmaxabs_proper : Proper (qeq ==> Qeq) qmaxabs.
+Proof. intros a b (H1 & H2 & H3 & H4). unfold qmaxabs. rewrite H1, H2, H3, H4. reflexivity. Qed.
+#[export] Instance close_vec_proper : Proper (Qeq ==> Qeq ==> veq ==> veq ==> eq) close_vec.
+Proof.
+  intros t t' Ht s s' Hs a a' (A1 & A2 & A3) b b' (B1 & B2 & B3). unfold close_vec.
+  rewrite Ht, Hs, A1, A2, A3, B1, B2, B3. reflexivity.
+Qed.
+#[export] Instance close_quat_proper : Proper (Qeq ==> Qeq ==> qeq ==> qeq ==> eq) close_quat.
+Proof.
+  intros t t' Ht s s' Hs a a' (A1 & A2 & A3 & A4) b b' (B1 & B2 & B3 & B4). unfold close_quat.
+  rewrite Ht, Hs, A1, A2, A3, A4, B1, B2, B3, B4. reflexivity.
+Qed.
+#[export] Instance close_mat_proper : Proper (Qeq ==> Qeq ==> meq ==> meq ==> eq) close_mat.
+Proof.
+  intros t t' Ht s s' Hs a a' A b b' B. unfold close_mat.
+  rewrite Ht, Hs, A, B. reflexivity.
+Qed.
+Lemma close_abs_spec tol scale a b : close_abs tol scale a b = true <-> Qabs (a - b) <= tol * scale.
+Proof. apply Qle_bool_iff. Qed.
